@@ -271,7 +271,30 @@ def sweep_unbound(ctx, prop):
     return out, {"functions_swept_definite_assignment": n_fn}
 
 
+def sweep_accessors(ctx, prop):
+    rd = RuleDef(prop, f"{prop}.sweep.T9", "T9", "whole-package sweep: every plain property's setter stores the attribute its getter returns", None, 4, "thorough")
+    out = RuleOutcome(rd)
+    r = R(rd)
+    from .lib import property_setter_mismatches
+
+    n, bad = property_setter_mismatches(ctx, list(ctx.ix.classes.values()))
+    for c, name, ga, sa, st in bad:
+        claimed = c.module.name.startswith(CLAIMED_MODULE_PREFIXES)
+        msg = f"{c.name}.{name}: getter returns self.{ga}, setter stores self.{sa}"
+        if claimed:
+            r.bad(key_of(st, f"setter of {name} stores {sa}"), st.loc(), msg, "a value assigned through the property is lost")
+        else:
+            r.note(msg + " - outside every claimed clause")
+    for _ in range(n - len(bad)):
+        r.ok("accessor pair agrees")
+    out.obligations, out.findings, out.notes = r.obligations, r.findings, r.notes
+    if out.findings:
+        out.verdict = "VIOLATION"
+    return out, {"accessor_pairs_swept": n}
+
+
 SWEEPS = {
+    "T9": {"C16", "C17"},
     "T12": {"C16", "C07", "C06", "C17", "C09"},
     "X0": {"C05", "C14", "C15", "C07", "C16"},
     "T7": {"C08", "C09", "C10", "C11"},
@@ -287,6 +310,10 @@ def run_thorough(prop, ctx, seed):
     extra.update(ex)
     if prop in SWEEPS["T12"]:
         o, ex = sweep_attributes(ctx, prop)
+        outcomes.append(o)
+        extra.update(ex)
+    if prop in SWEEPS["T9"]:
+        o, ex = sweep_accessors(ctx, prop)
         outcomes.append(o)
         extra.update(ex)
     if prop in SWEEPS["X0"]:
